@@ -265,11 +265,21 @@ impl Request {
     }
 
     pub fn build_sorted_query(query: &str) -> Option<String> {
+        Self::build_sorted_query_with_case(query, false)
+    }
+
+    pub fn build_sorted_query_with_case(query: &str, ignore_case: bool) -> Option<String> {
         let hash_query: BTreeMap<_, _> = parse_query(query.as_bytes()).into_owned().collect();
+        let mut sorted_query: Vec<_> = hash_query.iter().collect();
+
+        if ignore_case {
+            // the order of query params must not depend on the case of their keys
+            sorted_query.sort_by_cached_key(|(key, _)| key.to_lowercase());
+        }
 
         let mut query_string = "".to_string();
 
-        for (key, value) in &hash_query {
+        for (key, value) in sorted_query {
             query_string.push_str(&utf8_percent_encode(key, QUERY_ENCODE_SET).to_string());
 
             if !value.is_empty() {
